@@ -2,6 +2,7 @@
 
 import asyncio
 from collections.abc import Callable, Coroutine
+from concurrent.futures import ThreadPoolExecutor
 import contextlib
 from dataclasses import dataclass, field
 import json
@@ -28,13 +29,23 @@ class Persistence:
         default=None,
         init=False,
     )
+    # All file operations run in one worker thread, in the order they were requested.
+    # A save that is cancelled while one of its file operations is already running in
+    # a worker thread can not be stopped there. With several worker threads that
+    # operation could still truncate or overwrite the file after a later save wrote it.
+    _executor: ThreadPoolExecutor = field(
+        default_factory=lambda: ThreadPoolExecutor(max_workers=1),
+        init=False,
+        repr=False,
+        compare=False,
+    )
 
     async def load(self, path: str | None = None) -> None:
         """Load the stored data."""
         path = path or self.path
 
         try:
-            async with aiofiles.open(path) as fil:
+            async with aiofiles.open(path, executor=self._executor) as fil:
                 read = await fil.read()
             data = json.loads(read or "{}")
             if not isinstance(data, dict):
@@ -62,7 +73,11 @@ class Persistence:
             data[node.node_id] = node_schema.dump(node)
 
         try:
-            async with aiofiles.open(self.path, mode="w") as fil:
+            async with aiofiles.open(
+                self.path,
+                mode="w",
+                executor=self._executor,
+            ) as fil:
                 await fil.write(json.dumps(data, sort_keys=True, indent=2))
         except OSError as err:
             raise PersistenceWriteError(err) from err
